@@ -4385,9 +4385,31 @@ pub(crate) fn truncate_to_height_internal<P: consensus::Parameters>(
         named_params![":height": u32::from(truncation_height)],
     )?;
 
+    // The note commitment trees can retain checkpoints above the highest scanned block: the
+    // frontier that a scan batch starts from stays checkpointed after an earlier truncation has
+    // removed the batch's blocks. Such a checkpoint is tree state above the truncation height
+    // like any other, and must not survive it.
+    let mut has_checkpoints_above = false;
+    for table_prefix in [
+        crate::SAPLING_TABLES_PREFIX,
+        #[cfg(feature = "orchard")]
+        crate::ORCHARD_TABLES_PREFIX,
+        #[cfg(feature = "orchard")]
+        crate::IRONWOOD_TABLES_PREFIX,
+    ] {
+        has_checkpoints_above |= conn.query_row(
+            &format!(
+                "SELECT EXISTS(SELECT 1 FROM {table_prefix}_tree_checkpoints
+                               WHERE checkpoint_id > :height)"
+            ),
+            named_params![":height": u32::from(truncation_height)],
+            |row| row.get::<_, bool>(0),
+        )?;
+    }
+
     // If we're removing scanned blocks, we need to truncate the note commitment tree and remove
     // affected block records from the database.
-    if truncation_height < last_scanned_height {
+    if truncation_height < last_scanned_height || has_checkpoints_above {
         // Truncate the note commitment trees, applying to each pool's tree the action that
         // its checkpoint coverage of the truncation height requires.
         let mut wdb = WalletDb {
